@@ -230,7 +230,7 @@ let run (op : string) (args : sx list) : sx =
       let ((_, k), oks) = aw_run sink_write aw_init (empty_sink (list_of bool_of plan)) (list_of bytes_of ws) [] in
       sink_sx k [L (List.map sbool oks)]
   | "dearmor", [t; fin; cap] ->
-      res_sx (fun (b, o) -> [sb b; outcome_sx o]) (dearmor_from (bytes_of t) (status_of fin) (nat_of cap))
+      res_sx (fun (b, o) -> [sb b; outcome_sx o]) (dearmor_from_fast (bytes_of t) (status_of fin) (nat_of cap))  (* = dearmor_from: ArmorFast.dearmor_from_fast_eq *)
   | "normalize", [t] -> sb (normalize (bytes_of t))
   (* bech32 and key strings *)
   | "b32decode", [s] -> res_sx (fun (hrp, d) -> [sb hrp; sb d]) (decode (bytes_of s))
